@@ -55,6 +55,16 @@ package gen
 //@   invariant[C01] forall k in 0..rangeindex + 1: le{T2}at(buf.B, {T2} * k) == bits_{T1}(f.vals[k])
 //@ end template
 
+// C02: for a required numeric column the page header's sizes follow from the value count:
+// num_values values of the column's width, nothing else, make up the uncompressed page.
+//@ template T in Int32:4 Int64:8 Uint32:4 Uint64:8 Float32:4 Float64:8
+//@ func (*{T}Field).Write
+//@   verify[C02]
+//@   requires f != nil && metaOK(meta) && external(w)
+//@   modifies f, meta, HA(meta.rowGroups), heap("sch.ColumnMetaData"), heap("map[string]sch.ColumnChunk"), wfault, snk, ser, relArr
+//@   ensures[C02] err == nil && i32({T1} * #f.vals) && i32(snkPos - old(snkPos) - hdrLen) ==> hdrNV == #f.vals && hdrUncomp == {T1} * #f.vals && hdrComp == snkPos - old(snkPos) - hdrLen
+//@ end template
+
 //@ loop (*BoolField).Write#1
 //@   modifies HA(rawBuf)
 //@   invariant freshsince(rawBuf)
